@@ -250,6 +250,9 @@ def main():
     samples = []
     for c in conds[:3]:
         samples.append({"condition": c["name"], "doc": c.get("doc", "")[:600]})
+    for r in results:
+        if r.get("realised_samples") and len(samples) < 8:
+            samples.append({"condition": r["name"], "values_picked_by_the_solver_on_explored_paths": r["realised_samples"][:6]})
     for q in e2[:2]:
         samples.append({"smt_query": q["name"], "smtlib": q.get("smtlib", "")[:800], "result": q.get("result")})
     for rec in cex_records[:3]:
